@@ -192,8 +192,12 @@ type Env struct {
 	closing    atomic.Bool // set around Close: a dial that starts then is refused and counted by nobody
 	// handler events
 	HandlerCalls atomic.Int64
-	AsyncErrs    atomic.Int64 // async error-handler callbacks (data and control)
-	AsyncNotSel  atomic.Int64 // ... of which ErrNotSelectedState (B2 on the sender goroutine)
+	// InlineReply makes the data handler answer every primary with ReplyDataMessage on the calling
+	// (receive) goroutine; the records are read with Inline().
+	InlineReply atomic.Bool
+	inline      []*InlineRec
+	AsyncErrs   atomic.Int64 // async error-handler callbacks (data and control)
+	AsyncNotSel atomic.Int64 // ... of which ErrNotSelectedState (B2 on the sender goroutine)
 
 	CloseTimeout time.Duration
 	T3           time.Duration
@@ -333,7 +337,20 @@ func NewEnv(o Options) (*Env, error) {
 	}) {
 		return nil, errors.New("genx: cannot install the start gate")
 	}
-	conn.AddDataMessageHandler(func(msg *hsms.DataMessage, ep hsms.SECS2Endpoint) { e.HandlerCalls.Add(1) })
+	conn.AddDataMessageHandler(func(msg *hsms.DataMessage, ep hsms.SECS2Endpoint) {
+		e.HandlerCalls.Add(1)
+		if e.InlineReply.Load() {
+			// an INLINE handler: it answers on the generation's own receive goroutine
+			rec := &InlineRec{Start: time.Now()}
+			e.mu.Lock()
+			e.inline = append(e.inline, rec)
+			e.mu.Unlock()
+			err := ep.ReplyDataMessage(context.Background(), msg, body(0xFFFFFF, uint32(e.Gen())))
+			e.mu.Lock()
+			rec.End, rec.Res, rec.Returned = time.Now(), classify(err), true
+			e.mu.Unlock()
+		}
+	})
 	return e, nil
 }
 
@@ -344,6 +361,24 @@ func (e *Env) record(ev Event) {
 	ev.At = time.Now()
 	e.events = append(e.events, ev)
 	e.mu.Unlock()
+}
+
+// InlineRec is one ReplyDataMessage issued by the inline data handler.
+type InlineRec struct {
+	Start, End time.Time
+	Res        int
+	Returned   bool
+}
+
+// Inline returns copies of the inline-reply records.
+func (e *Env) Inline() []InlineRec {
+	e.mu.Lock()
+	defer e.mu.Unlock()
+	out := make([]InlineRec, len(e.inline))
+	for i, r := range e.inline {
+		out[i] = *r
+	}
+	return out
 }
 
 // Gen is the index of the newest generation dialled (-1 before the first dial).
